@@ -177,8 +177,32 @@ def run_type(res, T, rng, tier):
                     res.violation("C09:strict-flag-leaked", "strictness flag not restored after lenient block", {"type": T})
 
 
+def failed_loads(res):
+    """Loads that fail (missing path, unknown module type, truncated file) precede the strict-mode probes."""
+    import os
+    from io import BytesIO
+    import rv.api as api
+    import rv.errors as errors
+    raw = api.Synth(api.m.Amplifier()).read()
+    bad = [lambda: api.read_sunvox_file("/nonexistent/rvmon-no-such-file.sunvox"),
+           lambda: api.read_sunvox_file(BytesIO(raw.replace(b"Amplifier\0", b"Amplifiex\0"))),
+           lambda: api.read_sunvox_file(BytesIO(raw[:len(raw) // 2])),
+           lambda: api.m.Amplifier().clone()]
+    for i, f in enumerate(bad):
+        try:
+            f()
+        except Exception:
+            pass
+        res.count("failed_or_lenient_loads_before_probes")
+        res.case(("load-before-probes", i))
+        if errors.RAISE_CONTROLLER_VALUE_ERRORS is not True:
+            res.violation("C09:strict-mode-lost-after-load", f"after load attempt #{i} the library is no longer in strict mode", {"load": i})
+            errors.RAISE_CONTROLLER_VALUE_ERRORS = True
+
+
 def run_shard(spec_, res):
     rng = random.Random(spec_["seed"])
+    failed_loads(res)
     for T in spec_["types"]:
         run_type(res, T, rng, spec_["tier"])
         res.count("types_visited")
